@@ -724,6 +724,13 @@ class Interp:
                 for j in range(len(fs)):
                     fs[j] = ite_val(idx == bv(j, idx.size()), self.write_path(fs[j], path[1:], new), fs[j])
             return Agg(v.ty, fs)
+        if k == 'sub':
+            a, b, from_end = el[1], el[2], el[3]
+            hi = len(v.fields) - b if from_end else b
+            inner = self.write_path(Agg(v.ty, v.fields[a:hi]), path[1:], new)
+            if len(inner.fields) != hi - a:
+                raise Unsupported('sub-slice write changes the length')
+            return Agg(v.ty, v.fields[:a] + inner.fields + v.fields[hi:])
         raise Unsupported('write path elem %r' % (el,))
 
     def load(self, st, ptr):
